@@ -14,37 +14,37 @@ PROPS = {
             "mutation numbers finite with magnitude <= 1e100 so that the sums do not overflow",
             "compatibility is reached through the tag-guarded forwarders of neat/genetics/verif_hooks.go",
         ],
-        "technique": "property-based testing (rapid): generated innovation-list pairs against a set-based reference formula, plus symmetry/identity/method-agreement relations",
+        "technique": "property-based testing (rapid): generated innovation-list pairs against a set-based reference formula, plus symmetry/identity/method-agreement relations Sub-check 'concurrent': two to four independent cases are first checked alone and then repeatedly at the same time, each in its own goroutine, with the same oracle (what they share is only what the library keeps at package level).",
         "level_text": "Generated-input search: tens of thousands (quick) to millions (thorough) of list pairs covering every alignment pattern named in the property; "
                       "each compared with an independent reference of the formula under both methods. No counter-example = no violation among the generated classes, not a proof.",
         "level_note": "trusted: the reference formula in the harness (set based, 30 lines), Go float64 arithmetic, rapid's generators; tolerance 1e-9 relative",
-        "expect_classes": {"lists": ["no matching gene", "gene lists carved from one backing array", "genomes with different numbers of modules", "excess and disjoint", "gene-less side", "different lengths with disjoint genes", "both genomes carry the same id", "options carry a positive compatibility threshold", "matching gene disabled in both genomes"]},
+        "expect_classes": {"concurrent": ["independent cases evaluated at the same time"], "lists": ["innovation numbers beyond 31 bits", "same genome objects compared again after their mutation numbers changed in place", "no matching gene", "gene lists carved from one backing array", "genomes with different numbers of modules", "excess and disjoint", "gene-less side", "different lengths with disjoint genes", "both genomes carry the same id", "options carry a positive compatibility threshold", "matching gene disabled in both genomes"]},
     },
     "C18": {
         "run": "^TestC18",
         "fuzz": [('FuzzC18Scalar', 60), ('FuzzC18Module', 30)],
         "shards": 12,
-        "technique": "property-based testing (rapid): generated (type, float64) inputs biased to breakpoints/zeros/extremes against closed-form reference functions, range and monotonicity relations, name/code bijection",
+        "technique": "property-based testing (rapid): generated (type, float64) inputs biased to breakpoints/zeros/extremes against closed-form reference functions, range and monotonicity relations, name/code bijection Sub-check 'concurrent': two to four independent cases are first checked alone and then repeatedly at the same time, each in its own goroutine, with the same oracle (what they share is only what the library keeps at package level).",
         "level_text": "Generated-input search over all 23 registered types: scalar inputs up to |x| = 1e300 incl. breakpoints and their float neighbours, ordered pairs for monotonicity, "
                       "module vectors incl. all-below--9.2e18, all 256 type codes and registered / mangled / random names. Sampling, not a proof over float64.",
         "level_note": "trusted: the harness's table of closed forms, ranges and monotone flags (written from the definitions), Go math library; tolerance 1e-12 relative, monotonicity slack 2^-50 for exp-based functions",
         "rule": "scalar: (type, x, y) with x,y from a mixture of uniform, log-uniform to 1e300, breakpoints and 1-3 ulp neighbours (y adjacent to x half of the time); "
                 "module: vectors of length 1-8; name: codes 0-255 and registered/mangled/random names; every case is non-trivial, distinct = distinct (type, high bits of x and y) / (type, len, high bits) / (code, name)",
         "assumptions": ["reference = closed forms written in the harness from the documented definitions", "inputs finite with |x| <= 1e300"],
-        "expect_classes": {"scalar": ["negative zero input", "huge input", "monotonicity pair"], "module": ["all entries below -9.3e18", "more than 16 inputs"], "name": ["registered code", "unregistered code", "registered name", "unknown name"], "calls": ["several refused requests in one sequence", "custom activator registered on another factory"]},
+        "expect_classes": {"concurrent": ["independent cases evaluated at the same time"], "scalar": ["negative zero input", "huge input", "monotonicity pair"], "module": ["all entries below -9.3e18", "more than 16 inputs"], "name": ["registered code", "unregistered code", "registered name", "unknown name"], "calls": ["several refused requests in one sequence", "custom activator registered on another factory"]},
     },
     "C19": {
         "run": "^TestC19",
         "fuzz": [('FuzzC19Series', 60), ('FuzzC19Exp', 60)],
         "shards": 12,
-        "technique": "property-based testing (rapid): generated float series in every order against textbook / empirical-quantile references computed on a sorted copy; generated experiment records against aggregates recomputed from the generations",
+        "technique": "property-based testing (rapid): generated float series in every order against textbook / empirical-quantile references computed on a sorted copy; generated experiment records against aggregates recomputed from the generations Sub-check 'concurrent': two to four independent cases are first checked alone and then repeatedly at the same time, each in its own goroutine, with the same oracle (what they share is only what the library keeps at package level).",
         "level_text": "Generated-input search: series of length 0-400 (duplicates, wide range, sorted / reversed / shuffled) for the ten descriptive statistics incl. panics and receiver mutation; "
                       "synthetic experiments (0-6 trials x 0-12 generations, any solved pattern) for every aggregate named in the property.",
         "level_note": "trusted: the harness's reference statistics (two-pass variance, empirical quantile by definition); tolerance 1e-9 relative to sum|x| for computed values, exact for order statistics; unbiased variance of a single value is not compared",
         "rule": "series: mixture of small-integer / uniform / wide-range / fitness-like values, ascending, descending or shuffled; non-trivial = non-empty and not ascending; "
                 "aggregates: non-trivial = at least 2 trials and 3 generations; distinct by (n, leading value, median) resp. (trials, generations, solved trials)",
         "assumptions": ["champions are non-nil (the record format has no presence marker and the library always sets one)", "fitness ties between champions admit any of the tied organisms"],
-        "expect_classes": {"series": ["empty series", "empty series that is not nil", "not ascending", "large common offset, small spread"], "aggregates": ["accessors called before the comparison", "experiment-level best organism located", "solved trial", "solved and unsolved trials", "trial without generations", "no trials"]},
+        "expect_classes": {"concurrent": ["independent cases evaluated at the same time"], "series": ["empty series", "empty series that is not nil", "not ascending", "large common offset, small spread"], "aggregates": ["trial values that held another record before", "accessors called before the comparison", "experiment-level best organism located", "solved trial", "solved and unsolved trials", "trial without generations", "no trials"]},
     },
     "C06": {
         "run": "^TestC06",
@@ -78,78 +78,78 @@ PROPS = {
         "run": "^TestC11",
         "fuzz": [('FuzzC11', 90)],
         "shards": 12,
-        "technique": "property-based testing (rapid): generated genomes (enabled/disabled, recurrent, self-loop genes, modules incl. overlapping ones) expressed as networks and compared with a structural model; exhaustive ordered-pair queries of the graph view per genome against an adjacency model",
+        "technique": "property-based testing (rapid): generated genomes (enabled/disabled, recurrent, self-loop genes, modules incl. overlapping ones) expressed as networks and compared with a structural model; exhaustive ordered-pair queries of the graph view per genome against an adjacency model Sub-check 'concurrent': two to four independent cases are first checked alone and then repeatedly at the same time, each in its own goroutine, with the same oracle (what they share is only what the library keeps at package level). Sub-check 'epochs': generated population histories (all constructors, both executors); after construction and after every turnover each organism's Phenotype() is compared with the organism's genome as it is now.",
         "level_text": "Generated-input search over hand-built well-formed genomes; per genome the network structure is compared positionally / as multisets with the enabled part of the genome and every ordered pair over node ids, control ids and absent ids "
                       "is put to all graph queries (exhaustive per genome, sampled over genomes). Absent results are compared with == nil as a Go caller would.",
         "level_note": "trusted: the adjacency model built from the genome specification; module links have weight 1.0 (the YAML syntax has no weight field)",
         "rule": "G-direct genomes with 0-2 modules; non-trivial = at least one disabled gene and (a recurrent or self-loop gene or an enabled module); distinct by (#nodes, #genes, #disabled, #recurrent, #self-loops, #modules, #enabled modules)",
         "assumptions": ["genomes have at least one gene and one output (Genesis documents an error otherwise)"],
-        "expect_classes": {"genesis": ["disabled gene", "self-loop gene", "enabled module", "disabled module", "module reading and driving the same node", "genome expressed before in another state", "expressed before under the same network id"]},
+        "expect_classes": {"concurrent": ["independent cases evaluated at the same time"], "epochs": ["turnover that added genes"], "genesis": ["disabled gene", "self-loop gene", "enabled module", "disabled module", "module reading and driving the same node", "genome expressed before in another state", "expressed before under the same network id"]},
     },
     "C12": {
         "run": "^TestC12",
         "fuzz": [('FuzzC12', 90)],
         "shards": 12,
-        "technique": "property-based testing (rapid): generated acyclic networks (all scalar activations, 0-3 bias nodes, skip links, outputs feeding hidden nodes) x input vectors x step counts; differential against an independent topological evaluator with a propagated rounding bound",
+        "technique": "property-based testing (rapid): generated acyclic networks (all scalar activations, 0-3 bias nodes, skip links, outputs feeding hidden nodes) x input vectors x step counts; differential against an independent topological evaluator with a propagated rounding bound Sub-check 'concurrent': two to four independent cases are first checked alone and then repeatedly at the same time, each in its own goroutine, with the same oracle (what they share is only what the library keeps at package level).",
         "level_text": "Generated-input search: each DAG is evaluated by the standard solver (forward steps, and recursive steps when a hidden node exists) and by three fresh fast solvers (forward, recursive, relax) and compared with the harness's own "
                       "one-pass topological evaluation; the evidence counts the cases in which a bias link demonstrably matters.",
         "level_note": "trusted: the topological evaluator and its rounding bound (global Lipschitz constants per activation); it shares only the activation function table with the solvers (C18 checks that table); cases whose bound exceeds 1e-7 or that evaluate step/sign at the jump are discarded and counted",
         "rule": "G-net DAGs: 1-4 inputs, 0-3 bias, 0-8 hidden, 1-3 outputs, random topological order independent of ids, extra-link probability 0-0.6, weights in [-5,5] with occasional +-100; built from constructors or through Genesis; "
                 "non-trivial = a bias link moves an output by > 1e-6 and depth >= 2; distinct by (#in, #bias, #hidden, #out, #links, depth)",
         "assumptions": ["every neuron is reachable from a sensor and each ordered pair carries at most one link (as in every feed-forward genome)", "relaxation is run with the smallest positive delta and a budget of #neurons+2 steps; only the value, not the relaxed flag, is asserted"],
-        "expect_classes": {"dag": ["bias link moves an output by more than 1e-6", "weights rewritten in place after a solver was derived", "explicit bias values loaded before the evaluation", "flushed between the two vectors", "more than 128 neurons", "several bias nodes", "depth >= 3", "network expressed from a genome", "network built from constructors", "second input vector on the same instances", "output list in another order than the node list"]},
+        "expect_classes": {"concurrent": ["independent cases evaluated at the same time"], "dag": ["bias link moves an output by more than 1e-6", "weights rewritten in place after a solver was derived", "explicit bias values loaded before the evaluation", "flushed between the two vectors", "more than 128 neurons", "several bias nodes", "depth >= 3", "network expressed from a genome", "network built from constructors", "second input vector on the same instances", "output list in another order than the node list"]},
     },
     "C13": {
         "run": "^TestC13",
         "quick_pct": 60,
         "fuzz": [('FuzzC13', 90)],
         "shards": 12,
-        "technique": "property-based testing (rapid): generated networks (cyclic with self-loops and parallel links, acyclic, modular) x generated operation histories x flush x operation sequences; lock-step differential against a freshly built instance with bit-equal outputs",
+        "technique": "property-based testing (rapid): generated networks (cyclic with self-loops and parallel links, acyclic, modular) x generated operation histories x flush x operation sequences; lock-step differential against a freshly built instance with bit-equal outputs Sub-check 'concurrent': two to four independent cases are first checked alone and then repeatedly at the same time, each in its own goroutine, with the same oracle (what they share is only what the library keeps at package level).",
         "level_text": "Generated-input search with a differential oracle: instance A runs a history of 0-10 operations, is flushed and then runs a sequence of 1-10 operations in lock step with a fresh instance B; after every step the reported flags / errors and the outputs (bit patterns) must agree. "
                       "Both the standard network and the fast solver; plus repeated evaluation of one organism on the same inputs.",
         "level_note": "trusted: that two instances built from the same specification are identical before any operation (same constructor calls); sensor vectors have a length the solver documents as valid",
         "rule": "topologies: 2/3 cyclic G-net (link probability 0.05-0.6, self-loops, recurrent flags, parallel links), 1/6 DAG, 1/6 modular genome through Genesis; operations: load / activate(k) / forward(k) / recursive / depth-with-cap(k) for the network, load / forward(k) / recursive / relax(k, delta) for the fast solver; "
                 "non-trivial = the network has a cycle and the history contains an activation after a sensor load; distinct by (solver, #nodes, #links, history length, sequence length)",
         "assumptions": ["bit equality of outputs (NaN equals NaN): both instances perform the same floating-point operations in the same order"],
-        "expect_classes": {"flush": ["network with cycles", "fast solver built with the public constructor (bias links as ordinary connections)", "network with more than 128 neurons", "fresh solver derived from the network object of the flushed one", "feed-forward network", "modular network", "fast solver", "standard solver", "history activates after a sensor load", "neuron with an unregistered activation type (activations fail)"], "organism": ["recurrent organism"]},
+        "expect_classes": {"concurrent": ["independent cases evaluated at the same time"], "flush": ["network with cycles", "fast solver built with the public constructor (bias links as ordinary connections)", "network with more than 128 neurons", "fresh solver derived from the network object of the flushed one", "feed-forward network", "modular network", "fast solver", "standard solver", "history activates after a sensor load", "neuron with an unregistered activation type (activations fail)"], "organism": ["recurrent organism"]},
     },
     "C14": {
         "run": "^TestC14",
         "fuzz": [('FuzzC14', 90)],
         "shards": 12,
-        "technique": "property-based testing (rapid): generated DAGs and cyclic graphs with hidden nodes; depth compared with a dynamic-programming longest path; cap relation on fresh instances; generated query sequences on one instance for idempotence",
+        "technique": "property-based testing (rapid): generated DAGs and cyclic graphs with hidden nodes; depth compared with a dynamic-programming longest path; cap relation on fresh instances; generated query sequences on one instance for idempotence Sub-check 'concurrent': two to four independent cases are first checked alone and then repeatedly at the same time, each in its own goroutine, with the same oracle (what they share is only what the library keeps at package level).",
         "level_text": "Generated-input search: for acyclic graphs the reported depth is compared with an independent DP longest path; for cyclic graphs range and termination; for every cap 1..D+2 the capped result on a fresh instance; "
                       "and sequences of up to 4 capped/uncapped queries on one instance, each of which must answer as a fresh network would.",
         "level_note": "trusted: the DP longest-path model; termination is observed (a hang is reported by the driver as a timeout / crash with the case that was running), not proven; graphs have at most 12 neurons because the library enumerates simple paths",
         "rule": "2/3 DAGs (1-8 hidden, orphans allowed), 1/3 cyclic graphs (1-6 hidden, self-loops, parallel links); caps 0-8; non-trivial = depth >= 3 and a capped query below the depth precedes the final query; distinct by (#nodes, #links, depth, acyclic, caps)",
         "assumptions": ["non-modular networks with at least one hidden node (the statement's domain)"],
-        "expect_classes": {"depth": ["more than 32 nodes", "dense network (more than 100 links)", "paths printed between the queries", "expressed from a genome that also carries a disabled module", "acyclic", "cyclic", "cap below the depth", "capped query hit the cap before the final query", "depth >= 3"]},
+        "expect_classes": {"concurrent": ["independent cases evaluated at the same time"], "depth": ["caps around a depth above 8", "query sequence on an instance that was never queried before", "more than 32 nodes", "dense network (more than 100 links)", "paths printed between the queries", "expressed from a genome that also carries a disabled module", "acyclic", "cyclic", "cap below the depth", "capped query hit the cap before the final query", "depth >= 3"]},
     },
     "C15": {
         "run": "^TestC15",
         "fuzz": [('FuzzC15Genome', 90)],
         "shards": 12,
-        "technique": "property-based testing (rapid): write->read round trips of generated genomes (plain, YAML with modules), organisms (binary), populations (genome by genome and by species), fast-solver model files (differential outputs) and experiment records, compared under the harness's own genetic equality",
+        "technique": "property-based testing (rapid): write->read round trips of generated genomes (plain, YAML with modules), organisms (binary), populations (genome by genome and by species), fast-solver model files (differential outputs) and experiment records, compared under the harness's own genetic equality Sub-check 'concurrent': two to four independent cases are first checked alone and then repeatedly at the same time, each in its own goroutine, with the same oracle (what they share is only what the library keeps at package level).",
         "level_text": "Generated-input search with round-trip oracles: arbitrary float64 weights and trait parameters, all 20 scalar activation names, nil traits, disabled and recurrent genes, modules in YAML; populations of a common lineage through Population.Write / WriteBySpecies and ReadPopulation; "
                       "restored fast solvers must produce bit-identical outputs on generated load/step sequences; experiments must restore trials, generations, champions and the derived fitness/complexity/diversity/winner statistics.",
         "level_note": "trusted: the harness's snapshot equality (M2); trait ids >= 1 (0 is the file syntax for 'no trait'), module link weights 1.0 (no weight syntax), champions non-nil and non-modular (the record stores the plain encoding, no presence marker)",
         "rule": "genome: G-direct (>= 1 gene), half plain, half YAML with 0-2 modules; non-trivial = a weight that is not a float32 value plus a disabled or recurrent gene; organism/experiment: G-experiment records; population: 1-6 members of a G-family lineage; solver: DAG / cyclic / modular networks x 1-8 operations",
         "assumptions": ["weights, trait parameters and fitness values are finite (NaN/Inf have no textual syntax here)"],
-        "expect_classes": {"genome": ["encoding:plain", "encoding:YAML", "disabled gene", "recurrent gene", "nil trait", "modular"], "population": ["written by species (with comments)", "written genome by genome"],
+        "expect_classes": {"concurrent": ["independent cases evaluated at the same time"], "genome": ["encoding:plain", "encoding:YAML", "disabled gene", "recurrent gene", "nil trait", "modular"], "population": ["written by species (with comments)", "written genome by genome"],
                            "solver": ["modular solver", "solver with bias"], "experiment": ["solved trials"]},
     },
     "C20": {
         "run": "^TestC20",
         "fuzz": [('FuzzC20', 90)],
         "shards": 12,
-        "technique": "property-based testing (rapid) with fault injection: generated (trials, generations, solved pattern, fault point, observer on/off, executor) scenarios; the recorded call trace of evaluator and observer is compared with a protocol model",
+        "technique": "property-based testing (rapid) with fault injection: generated (trials, generations, solved pattern, fault point, observer on/off, executor) scenarios; the recorded call trace of evaluator and observer is compared with a protocol model Faults include a context ended inside an observer callback (trial start, generation evaluated, trial finish) and a context that is over before the run starts.",
         "level_text": "Generated-input search over run scenarios incl. injected evaluator errors and context cancellation at every (trial, generation) point: the harness's evaluator/observer record every call with the identity of the population and its organisms; "
                       "an undisturbed run must reproduce the model's trace exactly, a disturbed run must reproduce it up to the fault, evaluate nothing afterwards, repeat no notification and return the fault to the caller.",
         "level_note": "trusted: the 25-line protocol model; the harness evaluator honours the implicit preconditions of every shipped evaluator (finite non-negative fitness for all organisms, a champion on solved generations)",
         "rule": "1-5 trials x 1-8 generations, per trial a solved generation or none, fault none/error/cancel at a generated point, observer present 3/4, Trials nil or pre-sized, sequential or parallel executor, population 3-8; "
                 "non-trivial = a trial solved before its last generation or a fault after a completed trial; distinct by the whole scenario tuple",
         "assumptions": ["after a fault only 'no further evaluation, no repeated notification, fault returned' is required; a cancellation in the very last planned generation may return nil"],
-        "expect_classes": {"protocol": ["fault:none", "fault:deadline", "zero trials configured", "zero generations configured", "maximal number of generations configured (run until solved)", "observer handed over by value (field-less struct)", "observer reads the running experiment through its accessors", "fault:error", "fault:cancel", "evaluator error kind:canceled", "evaluator error kind:deadline", "evaluator failed in the generation it reported solved", "pre-sized record longer than the configured number of trials", "the experiment value was run once before", "options copied from a used object, context from the copy", "context that already carried other options", "with observer", "without observer", "parallel executor", "trial solved before the last generation", "fault after a completed trial"]},
+        "expect_classes": {"protocol": ["context ended inside an observer callback (finish)", "context ended inside an observer callback (epoch)", "context ended inside an observer callback (start)", "fault:none", "fault:deadline", "zero trials configured", "zero generations configured", "maximal number of generations configured (run until solved)", "observer handed over by value (field-less struct)", "observer reads the running experiment through its accessors", "fault:error", "fault:cancel", "evaluator error kind:canceled", "evaluator error kind:deadline", "evaluator failed in the generation it reported solved", "pre-sized record longer than the configured number of trials", "the experiment value was run once before", "options copied from a used object, context from the copy", "context that already carried other options", "with observer", "without observer", "parallel executor", "trial solved before the last generation", "fault after a completed trial"]},
     },
     "C01": {
         "run": "^TestC01",
@@ -188,7 +188,7 @@ PROPS = {
         "rule": "G-epochs scenarios, population 3-40 (120 thorough); a turnover is non-trivial when it starts with >= 2 species, can steal babies (BabiesStolen > 0 and a species older than 5) or runs the all-zero fallback; distinct by (epoch, #species, size, program, stolen, executor, #old species)",
         "assumptions": ["mate_multipoint_avg_prob + mate_singlepoint_prob > 0 (the method is chosen with their ratio)", "random populations containing a gene-less genome are skipped (counted)",
                         "known finding (known_findings.txt): fitness x age significance above the largest float64 is excluded by construction (age significance forced to 1 for near-maximal fitness, counted) and probed by a fixed case on every run"],
-        "expect_classes": {"epochs": ["species:1", "species:2-5", "species:6+", "turnover founding new species", "turnover with species extinction", "constructor:file", "turnover repeated after a cancelled attempt", "options object is a by-value copy of a used one", "executor object turned over another population before", "fitness values at the bottom of the float64 range", "log level debug", "turnover where babies can be stolen", "fitness:zero", "fitness values whose sum overflows", "parallel executor", "constructor:random", "constructor:read", "constructor:reread"]},
+        "expect_classes": {"epochs": ["organisms expressed and activated before the evaluation", "more stolen babies requested than half the population", "fitness program changes during the history", "species:1", "species:2-5", "species:6+", "turnover founding new species", "turnover with species extinction", "constructor:file", "turnover repeated after a cancelled attempt", "options object is a by-value copy of a used one", "executor object turned over another population before", "fitness values at the bottom of the float64 range", "log level debug", "turnover where babies can be stolen", "fitness:zero", "fitness values whose sum overflows", "parallel executor", "constructor:random", "constructor:read", "constructor:reread"]},
     },
     "C03": {
         "run": "^TestC03",
@@ -270,13 +270,13 @@ PROPS = {
         "cross_process": True,
         "history_dependent": True,
         "timeout_quick": 1200,
-        "technique": "property-based testing (rapid): generated scenarios (constructor, options, deterministic fitness program incl. a genome-dependent one, seed, epochs) run twice in one process with unrelated work in between, and in two differently configured processes; canonical dumps (floats as bit patterns) must be identical",
+        "technique": "property-based testing (rapid): generated scenarios (constructor, options, deterministic fitness program incl. a genome-dependent one, seed, epochs) run twice in one process with unrelated work in between, and in two differently configured processes; canonical dumps (floats as bit patterns) must be identical The second run may use a new executor object per turnover, an options object loaded from a file or copied from a used one; digests are compared after construction and after every turnover.",
         "level_text": "Generated-input search with a metamorphic oracle (same inputs => same outputs): every scenario is evolved twice with interference between the runs (another population under another seed, allocations, a garbage collection, map churn) and the complete canonical serialisation of the final population plus Population.Write text are compared; "
                       "the driver additionally runs a shard in two processes (GOMAXPROCS 1 / 16, different environment size => different address-space layout) and compares the digests scenario by scenario.",
         "level_note": "trusted: the canonical dump covers every exported field of organisms, genomes and species and the population counters; 'unrelated earlier work' is sampled by a fixed menu of interference, not enumerated",
         "rule": "G-epochs scenarios with the sequential executor, 1-20 (30) epochs, structural rates biased upwards; non-trivial = at least 5 epochs and the genomes grew (structural mutation and crossover took place); distinct by (constructor, epochs, size, program, seed, dump length)",
         "assumptions": ["the global math/rand source is seeded by the harness per run (go.mod go 1.23, so rand.Seed is effective; asserted at start-up)"],
-        "expect_classes": {"rerun": ["constructor:spawn", "constructor:file", "both runs spawn from one start genome object", "second run turned over by an executor object that served another population", "turnover repeated after a cancelled attempt", "constructor:random", "constructor:read", "constructor:reread", "fitness:genome", "genomes grew", "modular start genome", "large population", "second run with options copied from a used object", "add-link searches that run long", "second run with the options object of earlier work, settings overwritten in place", "generated unrelated scenario between the runs"]},
+        "expect_classes": {"rerun": ["second run with an options object that was loaded from a file", "second run with a new executor object for every turnover", "constructor:spawn", "constructor:file", "both runs spawn from one start genome object", "second run turned over by an executor object that served another population", "turnover repeated after a cancelled attempt", "constructor:random", "constructor:read", "constructor:reread", "fitness:genome", "genomes grew", "modular start genome", "large population", "second run with options copied from a used object", "add-link searches that run long", "second run with the options object of earlier work, settings overwritten in place", "generated unrelated scenario between the runs"]},
     },
 }
 
